@@ -38,6 +38,7 @@ func main() {
 		},
 		Gen:           genCases,
 		Run:           run,
+		WorkerInit:    workerInit,
 		Timeout:       180 * time.Second,
 		MinNonTrivial: 500,
 	})
@@ -46,6 +47,12 @@ func main() {
 func genCases(g *fw.GenCtx) {
 	for k := 0; k < g.Pick(2, 20); k++ {
 		g.Emit("hand", ccase{Seed: g.Rand.Int63()})
+	}
+	// flow half: 16 slices of the token boundaries of each whole program (quick: every 3rd boundary)
+	for pi := 0; pi < 1; pi++ {
+		for sl := 0; sl < 16; sl++ {
+			g.Emit("flow", fcase{Prog: pi, Seed: g.Rand.Int63(), From: sl * 60, To: (sl + 1) * 60, Stride: g.Pick(3, 1)})
+		}
 	}
 	for k := 0; k < g.Pick(60, 1500); k++ {
 		g.Emit("lint-single", ccase{Seed: g.Rand.Int63(), N: 3, Single: true})
@@ -369,6 +376,12 @@ func run(c fw.Case) fw.Outcome {
 	json.Unmarshal(c.Data, &cc)
 	if c.Kind == "hand" {
 		runHand(&oc, cc)
+		return oc
+	}
+	if c.Kind == "flow" {
+		var fc fcase
+		json.Unmarshal(c.Data, &fc)
+		runFlow(&oc, fc)
 		return oc
 	}
 	if cc.Sim {
